@@ -85,6 +85,21 @@ class MyGlomErrPrefix(GlomError):
         self.what = what
 
 
+class MyGlomErrTyped(GlomError):
+    """re-applying the constructor to its own args fails, and not with a TypeError (int('E007') -> ValueError)"""
+    def __init__(self, code):
+        super().__init__('E%03d' % int(code))
+
+
+class MyGlomErrObj(GlomError):
+    def __init__(self, user):
+        super().__init__('no such user: ' + user.name)      # (cls(*args) -> AttributeError on the str)
+
+
+class _User:
+    name = 'kim'
+
+
 class UserErrPrefix(Exception):
     def __init__(self, what):
         super().__init__('failed: %s' % (what,))
@@ -112,6 +127,7 @@ CATALOGUE = [
     ('MyGlomErr', lambda: MyGlomErr('mine', 2)), ('MyGlomErrInit', lambda: MyGlomErrInit(code=4)),
     ('MyGlomErrArity', lambda: MyGlomErrArity('a', 'b')),
     ('MyGlomErrPrefix', lambda: MyGlomErrPrefix('disk')), ('UserErrPrefix', lambda: UserErrPrefix('disk')),
+    ('MyGlomErrTyped', lambda: MyGlomErrTyped(7)), ('MyGlomErrObj', lambda: MyGlomErrObj(_User())),
     ('DynErr(Exception)', lambda: _dyn(Exception)), ('DynErr(ValueError)', lambda: _dyn(ValueError)), ('DynErr(KeyError)', lambda: _dyn(KeyError)),
     ('KeyboardInterrupt', lambda: KeyboardInterrupt()), ('SystemExit', lambda: SystemExit(3)), ('MyBase', lambda: MyBase('base')),
 ]
@@ -302,7 +318,7 @@ def argument_position_faults(col, rng, n_exc):
         ('dict-key-spec', lambda: {sf: 'd'}), ('Check-default', lambda: Check(type=int, default=(sf,))),
         # (not Match(default=[Spec(f)]): inside Match a callable is a predicate, its exception is reported as a MatchError by design)
     ]
-    always = [c for c in CATALOGUE if c[0] in ('StopIteration', 'KeyError', 'TypeError', 'IndexError', 'MyGlomErrPrefix')]
+    always = [c for c in CATALOGUE if c[0] in ('StopIteration', 'KeyError', 'TypeError', 'IndexError', 'MyGlomErrPrefix', 'MyGlomErrTyped', 'MyGlomErrObj')]
     for name, mk in shapes:
         for ename, mkexc in always + rng.sample(CATALOGUE, n_exc):
             probe = mkexc()
@@ -320,7 +336,7 @@ def argument_position_faults(col, rng, n_exc):
 class _FaultyNode:
     """a node of the TARGET whose attribute / item / method access raises the planted exception"""
     def __init__(self, raiser):
-        self._raiser = raiser
+        object.__setattr__(self, '_raiser', raiser)
 
     @property
     def prop(self):
@@ -332,15 +348,36 @@ class _FaultyNode:
     def meth(self, *a):
         raise self._raiser.exc
 
+    def __setitem__(self, k, v):
+        raise self._raiser.exc
+
+    def __delitem__(self, k):
+        raise self._raiser.exc
+
+    def __setattr__(self, name, v):
+        raise self._raiser.exc
+
+    def __delattr__(self, name):
+        raise self._raiser.exc
+
 
 class _FineNode:
     prop = 1
+
+    def __init__(self):
+        self.attr = 'a'
 
     def __getitem__(self, k):
         return 2
 
     def meth(self, *a):
         return 3
+
+    def __setitem__(self, k, v):
+        pass
+
+    def __delitem__(self, k):
+        pass
 
 
 def target_raised_faults(col, rng, n_exc):
@@ -349,6 +386,7 @@ def target_raised_faults(col, rng, n_exc):
     Exception classes that are the native lookup error of the step ('.' AttributeError, '[' KeyError/IndexError/TypeError)
     are left to C01/C02/C14 (they become PathAccessErrors, and misses behind a star); every other class must leave glom()
     under the same rules as an exception raised by a callable in the spec."""
+    from glom import Assign
     f = Raiser()
     shapes = [
         ('T-attr', lambda: T['one'].prop, (AttributeError,)), ('T-item', lambda: T['one']['k'], (KeyError, IndexError, TypeError)),
@@ -359,8 +397,15 @@ def target_raised_faults(col, rng, n_exc):
         ('T-star-attr-then-more', lambda: T['items'].__star__().prop.real, (AttributeError,)),
         ('T-starstar-method', lambda: T['wrap'].__starstar__().meth(1), ()),
         ('T-star-in-list', lambda: ('groups', [T.__star__().prop]), (AttributeError,)),
+        # the final step of an Assign / Delete given as T expression: item and attribute stores / deletions of the target
+        # that raise (Delete documents KeyError / IndexError / AttributeError there as "missing": PathDeleteError)
+        ('Assign-T-item', lambda: Assign(T['one']['k'], 1), ()), ('Assign-T-attr', lambda: Assign(T['one'].attr, 1), ()),
+        ('Delete-T-item', lambda: Delete(T['one']['k']), (KeyError, IndexError)), ('Delete-T-attr', lambda: Delete(T['one'].attr), (AttributeError,)),
+        ('Assign-T-item-behind-star', lambda: Assign(T['items'].__star__()['k'], 1), ()),
+        ('Delete-T-attr-behind-star', lambda: Delete(T['items'].__star__().attr), (AttributeError,)),
+        ('Delete-T-item-ignore-missing', lambda: Delete(T['one']['k'], ignore_missing=True), (KeyError, IndexError)),
     ]
-    always = [c for c in CATALOGUE if c[0] in ('MyGlomErr', 'MyGlomErrInit', 'MyGlomErrPrefix', 'ValueError', 'UserErr')]
+    always = [c for c in CATALOGUE if c[0] in ('MyGlomErr', 'MyGlomErrInit', 'MyGlomErrPrefix', 'MyGlomErrTyped', 'ValueError', 'UserErr', 'TypeError', 'KeyError')]
     for name, mk, native in shapes:
         for ename, mkexc in always + rng.sample(CATALOGUE, n_exc):
             probe = mkexc()
